@@ -217,13 +217,13 @@ def check(run):
     if run.tier == 'quick':
         part_a(run, 2, [0x00, 0xFF, 0xA3], range(0, 11), [1, 6], 6)
         part_a(run, 3, [0x55, 0x80], [0, 7, 14], [3, 7], 4)
-        part_b(run, 120, [2, 2, 3, 4, 8, 13])
+        part_b(run, 140, [2, 2, 3, 4, 5, 6, 7, 8, 9, 13, 17])
     else:
         part_a(run, 2, [0x00, 0xFF, 0x55, 0xAA, 0x01, 0x80], range(0, 11), [1, 2, 3, 4, 6, 7], 20)
         part_a(run, 3, [0x00, 0xFF, 0x55, 0xAA, 0x01, 0x80], range(0, 15), [1, 2, 3, 6, 7], 20)
         part_a(run, 4, [0x00, 0xFF, 0x55, 0x80], range(0, 19, 2), [1, 3, 7], 20)
         part_a(run, 5, [0x00, 0xFF, 0xA5], [0, 1, 5, 11, 22], [1, 4], 20)
-        part_b(run, 3000, [2, 2, 3, 4, 5, 8, 13, 16])
+        part_b(run, 3000, [2, 2, 3, 4, 5, 6, 7, 8, 9, 10, 13, 16, 17, 33])
     run.assumptions += ['the receiver completes the two-phase hand-off before the next frame ends (periodic patterns with at least one ready cycle '
                         'per two bit times); a UART has no flow control',
                         'behavioural leaves (serializer, deserializer, clock-sync FSM) are transcribed in PrimSem; the structural part is the '
